@@ -427,9 +427,10 @@ func (p *rdPredict) predict(n uint64) {
 }
 
 type detWrap struct {
-	pred *rdPredict
-	rd   *reorgdetector.ReorgDetector
-	n    *node
+	pred   *rdPredict
+	rd     *reorgdetector.ReorgDetector
+	n      *node
+	shadow bool
 }
 
 func (d *detWrap) GetFinalizedBlockType() aggkittypes.BlockNumberFinality {
@@ -439,7 +440,12 @@ func (d *detWrap) String() string { return d.rd.String() }
 
 func (d *detWrap) AddBlockToTrack(ctx context.Context, id string, num uint64, hash common.Hash) error {
 	return d.n.e.gatedFree(ctx, "drv", fmt.Sprintf("track:%d", num), "track",
-		func() error { return d.rd.AddBlockToTrack(ctx, id, num, hash) },
+		func() error {
+			if d.shadow { // the other syncer saw the same block (its own bookkeeping is not the subject here)
+				_ = d.rd.AddBlockToTrack(ctx, shadowID, num, hash)
+			}
+			return d.rd.AddBlockToTrack(ctx, id, num, hash)
+		},
 		func(err error) tr.M {
 			return tr.M{"n": num, "v": d.n.e.c.nameLocked(num, hash), "ok": err == nil, "err": errStr(err)}
 		})
@@ -597,7 +603,10 @@ type nodeCfg struct {
 	rdPath string
 	st     store
 	compat *compatData
+	shadow bool
 }
+
+const shadowID = "verif-shadow"
 
 func startNode(e *env, cfg nodeCfg) (*node, error) {
 	ctx, cancel := context.WithCancel(context.Background())
@@ -618,6 +627,24 @@ func startNode(e *env, cfg nodeCfg) (*node, error) {
 		cancel()
 		return nil, fmt.Errorf("reorgdetector.Start: %w", err)
 	}
+	if cfg.shadow {
+		sub, err := rd.Subscribe(shadowID)
+		if err != nil {
+			cancel()
+			return nil, fmt.Errorf("shadow subscriber: %w", err)
+		}
+		go func() {
+			for {
+				select {
+				case <-sub.ReorgedBlock:
+					// always answered: the detector holds this subscriber's list locked until it has the acknowledgement
+					sub.ReorgProcessed <- true
+				case <-ctx.Done():
+					return
+				}
+			}
+		}()
+	}
 	finality := aggkittypes.LatestBlock
 	if cfg.tag == "finalized" {
 		finality = aggkittypes.FinalizedBlock
@@ -629,7 +656,7 @@ func startNode(e *env, cfg nodeCfg) (*node, error) {
 		cancel()
 		return nil, fmt.Errorf("NewEVMDownloader: %w", err)
 	}
-	drv, err := sync.NewEVMDriver(&detWrap{rd: rd, n: n, pred: pred}, &procWrap{e: e, in: cfg.st, compat: cfg.compat, n: n},
+	drv, err := sync.NewEVMDriver(&detWrap{rd: rd, n: n, pred: pred, shadow: cfg.shadow}, &procWrap{e: e, in: cfg.st, compat: cfg.compat, n: n},
 		&dlWrap{real: dl, n: n}, syncerID, cfg.buf, rh, true)
 	if err != nil {
 		cancel()
